@@ -37,7 +37,11 @@ impl fmt::Display for Mk {
 }
 impl fmt::Debug for Mk {
     fn fmt(&self, f: &mut fmt::Formatter<'_>) -> fmt::Result {
-        f.write_char((b'A' + self.0) as char)
+        // an element's rendering may depend on the formatter's parameters (as {:.1?} of a float does): with a
+        // precision the marker is a digit instead of a letter, so a container that does not hand the caller's
+        // formatter on to its entries renders differently
+        let base = if f.precision().is_some() { b'0' } else { b'A' };
+        f.write_char((base + self.0) as char)
     }
 }
 
@@ -168,6 +172,33 @@ pub fn h_debug_map<const N: usize>(alt: bool, len: usize) {
     let mut s = Sink::new();
     check_fmt!(s, alt, OracleMap(&e, 0, len), m, "C19.Debug for Map: exactly the standard map rendering of the entries in iteration order");
     assert!(model(&m).same(&pre), "C19: formatting never changes the container");
+    kani::cover!(true, "reached");
+}
+
+/// `{:.1?}`: formatting parameters reach the entries exactly as with the standard map/set rendering
+pub fn h_debug_params<const N: usize>(len: usize) {
+    let m: Map<Mk, Mk, N> = any_map_len(len);
+    let e = entries(&m);
+    let mut s = Sink::new();
+    let _ = write!(s, "{:.1?}", OracleMap(&e, 0, len));
+    s.start_compare();
+    let _ = write!(s, "{:.1?}", m);
+    assert!(s.matched(), "C19.Debug for Map: formatting parameters ({:.1?}) reach the entries as in the standard map rendering");
+    let st: Set<Mk, N> = any_set_len(len);
+    let md = smodel(&st);
+    let mut e2 = [(Mk(0), Mk(0)); N];
+    let mut i = 0;
+    while i < N {
+        if i < md.len {
+            e2[i].0 = md.slot(i).0;
+        }
+        i += 1;
+    }
+    let mut s2 = Sink::new();
+    let _ = write!(s2, "{:.1?}", OracleSet(&e2, 0, len));
+    s2.start_compare();
+    let _ = write!(s2, "{:.1?}", st);
+    assert!(s2.matched(), "C19.Debug for Set: formatting parameters ({:.1?}) reach the elements as in the standard set rendering");
     kani::cover!(true, "reached");
 }
 
